@@ -232,6 +232,7 @@ def run(ctx):
     ctx.assume("signs and rounding of the matrix entries are value-level and not decided; only which inputs each entry depends on, and the composition order")
 
     # ---- R12.3 signed quantities stay signed
+    ctx.rule("R12.4", "every float-to-integer conversion in the transform code is applied to a value that was rounded first (round to nearest, then convert)")
     ctx.rule("R12.3", "angles, matrix entries and coordinates are signed: the transform code contains no conversion of a float or signed integer to an unsigned integer (such a cast clamps every negative value to zero)")
     n_casts = 0
     UNS = ("u8", "u16", "u32", "u64", "u128", "usize")
@@ -252,6 +253,13 @@ def run(ctx):
                 src = b.def_call(rv["o"])
                 if src is not None and re.search(r"::(rem_euclid|abs|unsigned_abs)$", callee_name(src) or ""):
                     continue  # provably non-negative
+                if ck == "FloatToInt":
+                    # R12.4: `as Int` truncates towards zero: it may only be applied to a value that was rounded first
+                    if src is None or not re.search(r"f64::<impl f64>::round$|::round$|::round_ties_even$", callee_name(src) or ""):
+                        k4 = "%s/%s->%s/unrounded" % (f.short, fr, to)
+                        ctx.violation("R12.4", k4, "%s converts a float to %s without rounding it first: `as` truncates towards zero, so a value such as -2.9999999999999996 (a right-angle rotation leaves residues of that size) becomes -2 instead of -3" % (f.short, to), b.site(bi), k4)
+                    else:
+                        ctx.ok("R12.4", "%s/%s->%s@%d" % (f.short, fr, to, bi), "rounded before the cast")
                 if to in UNS and (ck == "FloatToInt" or (ck == "IntToInt" and fr.startswith("i"))):
                     key = "%s/%s->%s" % (f.short, fr, to)
                     ctx.violation("R12.3", key, "%s converts a signed %s to %s: negative values (a clockwise angle such as -90, a negative coordinate) become 0, so the transform built from them is wrong" % (f.short, fr, to), b.site(bi), key)
